@@ -48,6 +48,24 @@ check(
     "DESIGN.md 4/C13",
 )
 
+check(
+    "C02",
+    "other",
+    "bounded symbolic verification of the freshness-decision kernels: build.validate_meta is executed on a duck-typed manager with symbolic stat results, real-valued clocks, opaque hashes and every flag combination; obligation: a returned meta implies the source content is unchanged (modulo the documented escapes bazel / fine-grained cache load / quickstart) and the data file mtime tie holds; further freshness kernels (is_fresh, find_stale_sccs, ...) appear as sections in the evidence when built. Counterexamples are replayed as warm-vs-cold runs of the real mypy command under three store/format configurations.",
+    "trusted: z3; contract 'a content change changes size or real-valued mtime'; hash injective; that trusted cache contents reproduce cold diagnostics is outside (C11 / whole-program). Known finding: same-second same-size edit.",
+    "symbolic execution of real Python source with z3 (decision-replay), replay warm vs cold",
+    "DESIGN.md 4/C02",
+)
+
+check(
+    "C03",
+    "other",
+    "bounded symbolic verification of the daemon's change detection (FileSystemWatcher._find_changed/_update on a stub file system, one step from an arbitrary recorded state) and of the symbol-table snapshot differ (astdiff.compare_symbol_table_snapshots against an independent specification over symbolic snapshots). Narrow: dependency generation, AST merge/strip and propagation are whole-program code and are not claimed.",
+    "trusted: z3; contract 'a content change changes size or real-valued mtime'; hash injective. Known finding: same-second same-size edit is missed by the daemon.",
+    "symbolic execution of real Python source with z3 (decision-replay), replay through in-process dmypy Server vs fresh run",
+    "DESIGN.md 4/C03",
+)
+
 ALL = [f"C{i:02d}" for i in range(1, 21)]
 
 
